@@ -2,9 +2,13 @@ package main
 
 import (
 	"context"
+	"encoding/json"
 	"errors"
 	"fmt"
+	"math/big"
+	"net/http"
 	"strings"
+	"time"
 
 	"github.com/iden3/go-schema-processor/v2/verifiable"
 )
@@ -130,4 +134,98 @@ func emitRegistryHistory(out *Out, r *Rng) {
 		impl = []any{}
 	}
 	out.Emit(Case{Op: "registry.run", In: J{"ops": ops}, Impl: J{"ok": impl}, Prop: propOf(why), Tags: []string{"registry-history", fmt.Sprintf("types:%d", len(types))}, NT: len(impl) > 0})
+}
+
+// the whole way of a status through the built-in resolver: the issuer's answer travels as JSON over (scripted) HTTP, is decoded by
+// IssuerResolver and judged by ValidateCredentialStatus - honest answers, and answers in which a root (or the state) is present but is
+// no hash, with the state recomputed as if that root - or that root and every later one - were absent. A root that is present and
+// unusable is not a missing root: the model (Hex.bad) says error, and so must the code.
+func emitStatusOverHTTP(out *Out, r *Rng, is *Issuer, revoked map[uint64]bool) {
+	var q uint64
+	members := make([]uint64, 0, len(revoked))
+	for k := range revoked {
+		members = append(members, k)
+	}
+	sortU64(members)
+	if len(members) > 0 && r.Bool() {
+		q = members[r.Intn(len(members))]
+	} else {
+		q = r.U64() >> uint(r.Intn(60))
+	}
+	rs := is.RevStatus(q)
+	zero := big.NewInt(0)
+	ctr, rtr, ror := is.claims.Root().BigInt(), is.revs.Root().BigInt(), is.roots.Root().BigInt()
+	fault := "none"
+	switch k := r.Intn(8); k {
+	case 0, 1:
+	case 2:
+		fault = "unusable-state"
+		s := unusableRoot(r)
+		rs.Issuer.State = &s
+	default:
+		which := r.Intn(3)
+		later := r.Bool()
+		s := unusableRoot(r)
+		c, v, o := ctr, rtr, ror
+		switch which {
+		case 0:
+			rs.Issuer.ClaimsTreeRoot = &s
+			c = zero
+			if later {
+				v, o = zero, zero
+			}
+		case 1:
+			rs.Issuer.RevocationTreeRoot = &s
+			v = zero
+			if later {
+				o = zero
+			}
+		default:
+			rs.Issuer.RootOfRoots = &s
+			o = zero
+		}
+		fault = fmt.Sprintf("unusable-root-%d-state-as-if-absent(later:%v)", which, later)
+		if r.Chance(85) {
+			rs.Issuer.State = stateOf(c, v, o)
+		}
+	}
+	body, err := json.Marshal(rs)
+	if err != nil {
+		return
+	}
+	old := http.DefaultTransport
+	http.DefaultTransport = &scriptedTransport{code: 200, body: body}
+	reg := &verifiable.CredentialStatusResolverRegistry{}
+	reg.Register(verifiable.SparseMerkleTreeProof, verifiable.IssuerResolver{})
+	_, verr := guard(10*time.Second, func() (int, error) {
+		_, e := verifiable.ValidateCredentialStatus(context.Background(), verifiable.CredentialStatus{ID: "http://status.example/check", Type: verifiable.SparseMerkleTreeProof, RevocationNonce: q},
+			verifiable.WithValidationStatusResolverRegistry(reg))
+		return 0, e
+	})
+	http.DefaultTransport = old
+	impl := classify(verr)
+	var why []string
+	if fault == "none" {
+		if revoked[q] && impl["err"] != "revoked" {
+			why = append(why, fmt.Sprintf("over HTTP: nonce %d is in the revocation tree but the result is %v", q, impl))
+		}
+		if !revoked[q] && verr != nil {
+			why = append(why, fmt.Sprintf("over HTTP: nonce %d is absent from the revocation tree but validation fails: %v", q, verr))
+		}
+	} else if verr == nil || impl["err"] == "revoked" {
+		why = append(why, fmt.Sprintf("over HTTP: the answer %s carries a root or state that is present but is no hash (%s), and validation says %v instead of an error", trunc(string(body), 300), fault, impl))
+	}
+	if errClass(verr) == "panic" || errClass(verr) == "hang" {
+		why = append(why, verr.Error())
+	}
+	out.Emit(Case{Op: "verify.status", In: J{"answer": statusAnswerJ(rs, nil), "nonce": fmt.Sprint(q), "fault": fault, "via": "http"}, Impl: impl, Prop: propOf(why),
+		Tags: []string{"over-http", "fault:" + strings.SplitN(fault, "(", 2)[0], fmt.Sprintf("member:%v", revoked[q])}, NT: true})
+}
+
+func sortU64(a []uint64) {
+	for i := 1; i < len(a); i++ {
+		for j := i; j > 0 && a[j] < a[j-1]; j-- {
+			a[j], a[j-1] = a[j-1], a[j]
+		}
+	}
 }
